@@ -19,6 +19,10 @@ Definition obs_spec_contains (s arg item ov : list N) : list N :=
   | None => asc "ES"
   | Some sp => show_outcome (contains sp (parse_tri ov) (parse_tri arg) item)
   end.
+(* one query through any observation point: args = specifier, call argument, candidate, object setting, (how the setting was made),
+   via = "contains" | "in" (`item in spec`: no call argument), (kind of candidate object: str / Version / subclass) *)
+Definition obs_spec_query (s arg item ov via : list N) : list N :=
+  obs_spec_contains s (if seqb via (asc "in") then [] else arg) item ov.
 Definition obs_spec_sem (s item : list N) : list N :=
   match Specifier s with
   | None => asc "ES"
@@ -41,4 +45,6 @@ Definition run_spec (cmd : list N) (args : list (list N)) : option (list N) :=
   else if seqb cmd (asc "sp.contains") then Some (obs_spec_contains (nth_str 0 args) (nth_str 1 args) (nth_str 2 args) (nth_str 3 args))
   else if seqb cmd (asc "sp.eq") then Some (obs_spec_eq (nth_str 0 args) (nth_str 1 args))
   else if seqb cmd (asc "sp.sem") then Some (obs_spec_sem (nth_str 0 args) (nth_str 1 args))
+  else if seqb cmd (asc "sp.sem.obj") then Some (obs_spec_sem (nth_str 0 args) (nth_str 1 args))
+  else if seqb cmd (asc "sp.query") then Some (obs_spec_query (nth_str 0 args) (nth_str 1 args) (nth_str 2 args) (nth_str 3 args) (nth_str 5 args))
   else None.
